@@ -132,6 +132,7 @@ inline i_ga::const_iterator i_ga::end() const
 ///
 inline i_ga::iterator i_ga::begin()
 {
+  signature_.clear();  // mutable access, same policy as `operator[]`
   return genome_.begin();
 }
 
@@ -140,6 +141,7 @@ inline i_ga::iterator i_ga::begin()
 ///
 inline i_ga::iterator i_ga::end()
 {
+  signature_.clear();  // mutable access, same policy as `operator[]`
   return genome_.end();
 }
 
